@@ -95,6 +95,11 @@ theorem laterAnn_sorted (legacy : Bool) (cfg : Config) (pid : Nat) (rest : List 
     | sched =>
       have ho' : orderedFrom T rest = true := by simpa [orderedFrom, queuedTime] using ho
       simpa [laterAnn] using ih T ho'
+    | otherEvent p td t km ip chain =>
+      simp only [laterAnn]
+      simp only [orderedFrom, queuedTime, Bool.and_eq_true, decide_eq_true_eq] at ho
+      obtain ⟨i1, i2⟩ := ih t ho.2
+      exact ⟨i1, fun o ho' => Nat.le_trans ho.1 (i2 o ho')⟩
 
 /-- the queue-prefix reading equals the timestamp reading when everything announced so far is at or before `t` and
 the later announcements are in time order from `t` on -/
@@ -182,6 +187,7 @@ theorem ann_bound (cfg : Config) (st : List (Nat × Announced)) (r : Rec) (T : N
   | switchIn => exact hb'
   | switchOut => exact hb'
   | sched => exact hb'
+  | otherEvent => exact hb'
 
 theorem expectedSamples_go_legacyQ (cfg : Config) (rs : List Rec) :
     ∀ (st : List (Nat × Announced)) (mx : List (Nat × Nat)) (last : Last) (T : Nat),
